@@ -219,6 +219,74 @@ def confinement(rng):
     return case
 
 
+def boundary_races(rng):
+    """C12 family (two-sided): side A moves a synchronised file (or a folder with files) across the root boundary
+    - out of the root, or to a path the translate function declines - while side B concurrently writes, renames or
+    deletes the SAME object (or a file inside the moved folder); the engine learns of the two changes in any order.
+    Whatever it does, it must never address anything outside a root (guards CONFINED / OUTSIDE); the views must
+    converge and no covered version may vanish.  Both sides id-stable or path-style (the fix bbf04b7 is id-agnostic).
+    Not generated: the peer renaming the moved-out FOLDER itself (known engine defect: empty folder left behind)."""
+    fl0 = rng.choice([f for f in CLEAN_FLAVOURS if f.cs == (True, True)])
+    fl = E.Flavour(fl0.oip, fl0.cs, False, rng.choice(["path", "oid"]), fl0.roots)
+    a = rng.choice([0, 1])
+    b = 1 - a
+    g = EC.Gen(rng, fl, [0, 1], 0)
+    g.allow_empty = False
+    base, base_other = [], []
+    out = "/outside"
+    (base if a == 0 else base_other).append(["mkdir", out])
+    files, folders = [], []
+    for i in range(rng.randint(2, 4)):
+        rel = "/" + g.fresh("F")
+        files.append(rel)
+        base.append(["create", g.abs(0, rel), g.content()])
+    for i in range(rng.randint(0, 2)):
+        d = "/" + g.fresh("D")
+        kids = []
+        base.append(["mkdir", g.abs(0, d)])
+        for _ in range(rng.randint(1, 2)):
+            k = d + "/" + g.fresh("F")
+            kids.append(k)
+            base.append(["create", g.abs(0, k), g.content()])
+        folders.append((d, kids))
+    sched = g.sched
+    sched.append(["drain"])
+    for _ in range(rng.randint(1, 3)):
+        if folders and rng.random() < 0.35:
+            d, kids = folders.pop(rng.randrange(len(folders)))
+            move = ["user", a, ["rename", g.abs(a, d), out + "/" + g.fresh("D")]]
+            k = rng.choice(kids)
+            r = rng.random()
+            if r < 0.4:
+                peer = ["user", b, ["write", g.abs(b, k), g.content()]]
+            elif r < 0.7:
+                peer = ["user", b, ["rename", g.abs(b, k), g.abs(b, d + "/" + g.fresh("F"))]]
+            else:
+                peer = ["user", b, ["delete", g.abs(b, k)]]
+        elif files:
+            f = files.pop(rng.randrange(len(files)))
+            move = ["user", a, ["rename", g.abs(a, f), out + "/" + g.fresh("F")]]
+            r = rng.random()
+            if r < 0.4:
+                peer = ["user", b, ["write", g.abs(b, f), g.content()]]
+            elif r < 0.75:
+                peer = ["user", b, ["rename", g.abs(b, f), g.abs(b, "/" + g.fresh("F"))]]
+            else:
+                peer = ["user", b, ["delete", g.abs(b, f)]]
+        else:
+            break
+        first, second = (move, peer) if rng.random() < 0.5 else (peer, move)
+        sched.append(first)
+        g.engine_noise(0.4)
+        sched.append(second)
+        for _ in range(rng.randint(0, 4)):
+            sched.append(rng.choice([["intake", 0], ["intake", 1], ["sync"]]))
+        sched.append(["drain"])
+    return dict(flavour=fl.key(), base=base, base_other=base_other, schedule=sched,
+                hash_mult=rng.choice([1, 3, 7, 11, 2654435761]),
+                mode=dict(origin=None, check_spec=False, no_conflicted=False, cov_every_step=False))
+
+
 def run_confinement(case, monitor):
     hooks = {}
     if case.get("decline"):
